@@ -60,6 +60,37 @@ def check(tier, seed):
                 res.violation('C03: a checksum-failed frame did not yield exactly one error marker (or was delivered as data)',
                               {'property': 'C03', 'input': desc, 'expected': ' '.join(q_exp)[:1500], 'implementation_says': impl[:1500]}, 'c03-marker|' + C.hexs(s)[:80])
             cases.append(Case('ubx-parser-markers', G.ubx_cmd(filt, [('P', s)]), impl, desc, kind='markers'))
+        # the length gate and the delivery of small frames hold for EVERY class/id (no class/id is special): all 65536 pairs
+        # on the implementation against the unique expected answer; a sample of them also against the model
+        sweep = [(c, i) for c in range(256) for i in range(256)]
+        n_bad = 0
+        for c, i in sweep:
+            follow = G.frame(c, i, bytes([c ^ i]))
+            s = bytes([0xB5, 0x62, c, i, 0xE9, 0x03]) + follow + G.frame(c, i, b'')
+            impl = G.impl_ubx([(c, i)], [('P', s)])
+            exp = f'rx=2 q=[pkt.{c}.{i}.{c ^ i:02x} pkt.{c}.{i}.-] out=[]'
+            if impl != exp:
+                n_bad += 1
+                if n_bad <= 3:
+                    res.violation('C03: an over-length header (1001) of this class/id hid the frames that start after its 6 bytes, or a small frame of this class/id was not delivered',
+                                  {'property': 'C03', 'input': {'stream_hex': C.hexs(s), 'filter': [(c, i)], 'kind': 'cid-sweep', 'chunking': 'whole'}, 'expected': exp, 'implementation_says': impl[:300]}, f'c03-sweep|{c}|{i}')
+            if (c * 256 + i) % 97 == 0 or n_bad and n_bad <= 3:
+                cases.append(Case('ubx-parser-cid-sweep', G.ubx_cmd([(c, i)], [('P', s)]), impl, {'stream_hex': C.hexs(s), 'filter': [(c, i)], 'kind': 'cid-sweep', 'chunking': 'whole'}, kind='cid-sweep'))
+        res.notes['class_id_pairs_swept'] = len(sweep)
+        # a frame of class/id X passes, the filter is replaced by one without X (set_filters or set_filter), X arrives again
+        for _ in range(40 if tier == 'quick' else 1500):
+            x, y = rng.sample(G.CIDS, 2)
+            fx = G.frame(x[0], x[1], bytes([rng.getrandbits(8)]))
+            how = rng.choice(['FS', 'FS', 'F'])
+            ops = [('FS', [x, y]), ('P', fx), (how, [y] if how == 'FS' else y), ('P', fx + G.frame(y[0], y[1], b'\x01')), ('FS', [x]), ('P', fx)]
+            impl = G.impl_ubx(None, ops)
+            toks = impl.split('q=[')[1].split(']')[0].split() if not impl.startswith('!') else ['!']
+            exp = [f'pkt.{x[0]}.{x[1]}.{C.hexs(fx[6:-2])}', f'pkt.{y[0]}.{y[1]}.01', f'pkt.{x[0]}.{x[1]}.{C.hexs(fx[6:-2])}']
+            desc = {'kind': 'filter-switch-same-cid', 'x': x, 'y': y, 'how': how}
+            if toks != exp:
+                res.violation('C03: a frame whose class/id is not in the filter in force was delivered (or one that is was not) after the filter was replaced',
+                              {'property': 'C03', 'input': desc, 'expected': ' '.join(exp), 'implementation_says': impl[:600]}, 'c03-switch|' + how)
+            cases.append(Case('ubx-parser-filter-switch', G.ubx_cmd(None, ops), impl, desc, kind='filter-switch'))
         # filter membership must be exact: valid frames whose class/id is NEAR the filter's (shifted, swapped, neighbour ...)
         for c, i in [(0x0a, 4), (5, 1), (5, 0), (6, 0x8b), (0x13, 0x60), (1, 3)] + [(rng.randrange(1, 64), rng.randrange(2, 250)) for _ in range(6 if tier == 'quick' else 200)]:
             near = G.near_cids(c, i)
